@@ -24,6 +24,7 @@ RULE = (
     "(row kind, col kind, value kind) triples x overlap flag x conversion formats x ended-with-bad-write; "
     "non-trivial = at least one non-None write and one conversion"
 )
+RULE += " 35% of the histories contain the block-diagonal loop of a caller that keeps one index buffer per axis (or one for both) and refills it in place between consecutive writes (same array objects, other contents)."
 RULE += " Dense blocks are handed over in element types float64 / int64 / int32 / float32 / bool / nested Python lists and in C, Fortran, strided and transposed memory layouts; sparse blocks in float64 / int64 / float32."
 COMPONENTS = {
     "real": ["cardillo.utility.coo_matrix.CooMatrix", "scipy.sparse"],
@@ -208,6 +209,23 @@ def gen(rng, tier, index):
         ops.append(w)
         if rng.random() < p_conv:
             ops.append({"op": "convert", "c": int(rng.integers(len(shapes))), "fmt": FORMATS[int(rng.integers(len(FORMATS)))]})
+    if m > 0 and n > 0 and rng.random() < 0.35:
+        # the block-diagonal loop of a caller that keeps ONE index buffer per axis and shifts / refills it in place
+        # between the writes: every write sees the same array objects with other contents
+        r, c = int(rng.integers(1, min(m, 3) + 1)), int(rng.integers(1, min(n, 3) + 1))
+        same = rng.random() < 0.3 and r == c and m == n  # one buffer used for rows and columns
+        loop = []
+        for _ in range(int(rng.integers(2, 5))):
+            ri = [int(x) for x in rng.integers(0, m, size=r)]
+            ci = list(ri) if same else [int(x) for x in rng.integers(0, n, size=c)]
+            val = {"k": "dense2d", "sh": [r, c], "v": _vals(rng, r, c)}
+            if r == 1 and rng.random() < 0.3:
+                val["k"] = "dense1d"
+            loop.append({"op": "write", "c": 0, "rows": {"k": "array", "idx": ri, "buf": "r"}, "cols": {"k": "array", "idx": ci, "buf": "r" if same else "c"}, "val": val})
+            if rng.random() < 0.3:
+                loop.append({"op": "convert", "c": 0, "fmt": FORMATS[int(rng.integers(len(FORMATS)))]})
+        at = int(rng.integers(0, len(ops) + 1))
+        ops[at:at] = loop
     for c in range(len(shapes)):
         ops.append({"op": "convert", "c": c, "fmt": FORMATS[int(rng.integers(len(FORMATS)))]})
     if rng.random() < 0.35:
@@ -231,6 +249,15 @@ def _build_index(spec, n):
     if k == "list":
         return list(spec["idx"]), list(spec["idx"])
     if k == "array":
+        if spec.get("buf"):
+            # the caller's own index buffer, refilled in place (same array object as in its previous write)
+            buf = BUFFERS.get(spec["buf"])
+            if buf is None or len(buf) != len(spec["idx"]):
+                buf = BUFFERS[spec["buf"]] = np.zeros(len(spec["idx"]), dtype=np.int64)
+            else:
+                BUFFERS["reused"] = BUFFERS.get("reused", 0) + 1
+            buf[:] = spec["idx"]
+            return buf, list(spec["idx"])
         return np.array(spec["idx"], dtype=np.int64), list(spec["idx"])
     if k == "slice":
         s = slice(*spec["s"])
@@ -240,6 +267,7 @@ def _build_index(spec, n):
     return np.array([], dtype=np.int64), []
 
 
+BUFFERS = {}  # index buffers of the caller that live across writes (per history)
 SCALE = {"x": 1.0}  # unit scale of the current history (a power of two: every sum stays exact)
 
 
@@ -351,6 +379,7 @@ def execute(plan, out, log):
     from cardillo.utility.coo_matrix import CooMatrix
 
     SCALE["x"] = float(2.0 ** plan.get("scale_exp", 0))
+    BUFFERS.clear()
     if plan.get("scale_exp", 0):
         out["probes"]["rescaled_history"] += 1
     shapes = [tuple(plan["shape"])] + [tuple(x) for x in plan.get("subs", [])]
@@ -454,6 +483,8 @@ def execute(plan, out, log):
                     )
                 )
             break  # nothing is promised about the container after a rejected write
+    if BUFFERS.get("reused"):
+        out["probes"]["index_buffer_refilled_in_place"] += BUFFERS["reused"]
     out["steps"] = len(plan["ops"])
     out["nontrivial"] = n_writes > 0 and len(fmts) > 0
     out["abstract"] = repr((sorted(triples), overlap, sorted(fmts), bad, len(shapes)))
